@@ -22,6 +22,10 @@ import (
 	"pgregory.net/rapid"
 )
 
+// realStdout is captured before any check redirects os.Stdout (the in-package
+// server harness silences the CLI's logging that way).
+var realStdout = os.Stdout
+
 // Failure describes one violated oracle clause. Key is a stable, specific
 // signature of the *root cause class* as far as the check can tell (it is what
 // known_findings.json entries are matched against); Msg is for humans.
@@ -238,12 +242,12 @@ func replay[C any](t *testing.T, id, check string, run func(C) Outcome) bool {
 	}
 	o := run(c)
 	if o.Fail != nil {
-		fmt.Printf("VERIF-REPLAY property=%s check=%s result=fail key=%s msg=%s\n", id, check, o.Fail.Key, oneLine(o.Fail.Msg))
+		fmt.Fprintf(realStdout, "VERIF-REPLAY property=%s check=%s result=fail key=%s msg=%s\n", id, check, o.Fail.Key, oneLine(o.Fail.Msg))
 		t.Fatalf("replayed case fails: [%s] %s", o.Fail.Key, o.Fail.Msg)
 	} else if o.Skip != "" {
-		fmt.Printf("VERIF-REPLAY property=%s check=%s result=skip reason=%s\n", id, check, o.Skip)
+		fmt.Fprintf(realStdout, "VERIF-REPLAY property=%s check=%s result=skip reason=%s\n", id, check, o.Skip)
 	} else {
-		fmt.Printf("VERIF-REPLAY property=%s check=%s result=pass\n", id, check)
+		fmt.Fprintf(realStdout, "VERIF-REPLAY property=%s check=%s result=pass\n", id, check)
 	}
 	return true
 }
